@@ -80,7 +80,12 @@ func (c *Ctx) Thorough() bool { return c.Tier == "thorough" }
 // Mine reports whether item i of a flat enumeration belongs to this shard.
 func (c *Ctx) Mine(i int) bool { return c.NShards <= 1 || i%c.NShards == c.Shard }
 
-func (c *Ctx) Count(name string, n int64) { c.Res.Counters[name] += n }
+// Count adds to a counter. Every call is also a sign of life for the worker's hang watchdog: on a loaded machine a
+// long enumeration that only counts (no Progress call) must not be mistaken for a hang.
+func (c *Ctx) Count(name string, n int64) {
+	c.Res.Counters[name] += n
+	ProgressTicks.Add(1)
+}
 
 // Progress records the case about to be executed so that a fatal crash of the worker is attributable.
 // ProgressTicks counts Progress calls (read by the worker's hang watchdog).
@@ -101,6 +106,7 @@ func (c *Ctx) Distinct(b []byte) bool {
 	h := fnv.New64a()
 	h.Write(b)
 	v := h.Sum64()
+	ProgressTicks.Add(1)
 	if _, ok := c.distinct[v]; ok {
 		return false
 	}
